@@ -28,7 +28,19 @@ def site_tokens(site, role):
         else:
             node = nodes[k] if k < len(nodes) else None
             k += 1
-            toks[-1].append(("arg", role(node) if node is not None else "?"))
+            r = role(node) if node is not None else "?"
+            if isinstance(r, tuple) and r[0] == "lit":
+                # a placeholder that prints a constant string selected by the subject: literal text
+                for p in re.split(r"(\s+)", r[1]):
+                    if not p:
+                        continue
+                    if p.isspace():
+                        if toks[-1]:
+                            toks.append([])
+                    else:
+                        toks[-1].append(("lit", p))
+            else:
+                toks[-1].append(("arg", r))
     if not toks[-1]:
         toks.pop()
     return toks
@@ -43,19 +55,59 @@ class Unknown(Exception):
     pass
 
 
-def variant_walk(crate, f, pid, variant_path, macros=("write", "writeln")):
+def variant_walk(crate, f, pid, variant_path, macros=("write", "writeln"), values=None, slices=None):
     """the formatting sites executed, in order, when the parameter `pid` of f is the given enum variant (its fields unknown), together with
     the bindings of the variant's pattern that are in scope: ([site..], {binding id: field key}).  Raises Unknown when reaching a site depends
     on anything but the variant."""
     sites = {id(s_["node"]): s_ for s_ in fmtstr.macro_sites(crate, f["body"], macros)}
     binds = {}
     out = []
+    values = values if values is not None else {}     # binding id -> ("lit", v) | ("elem", slice param id, index): filled for constants selected by the variant
+    slices = slices or set()                          # parameter ids of slices whose elements may be enumerated (`&children[..n]`)
+
+    def const_of(e, depth=0):
+        """literal / tuple of literals an expression evaluates to when the subject is this variant, else None"""
+        e = norm.tail_value(e)
+        if depth > 6:
+            return None
+        if e.get("k") == "lit":
+            return ("lit", e.get("v"))
+        if e.get("k") == "tuple":
+            parts = [const_of(x, depth + 1) for x in e["es"]]
+            return ("tuple", parts) if all(p_ is not None for p_ in parts) else None
+        if e.get("k") == "local" and e["id"] in values:
+            return values[e["id"]]
+        if e.get("k") == "local" and e["id"] in LET_INITS and canon(e["id"]) != canon(pid):
+            return const_of(LET_INITS[e["id"]], depth + 1)
+        if e.get("k") == "match" and is_subject(e["scrut"]):
+            for arm in e["arms"]:
+                alt, vp = pat_hit(arm["pat"])
+                if alt is None:
+                    continue
+                if "guard" in arm:
+                    return None
+                return const_of(arm["body"], depth + 1)
+        if e.get("k") == "blockexpr" and "tail" in e["b"]:
+            return const_of(e["b"]["tail"], depth + 1)
+        return None
+
+    def bind_const(pat, v):
+        while pat.get("k") in ("pref", "pderef"):
+            pat = pat["pat"]
+        if pat.get("k") == "pbind" and v is not None:
+            values[pat["id"]] = v
+        elif pat.get("k") == "ptuple" and v is not None and v[0] == "tuple" and len(v[1]) == len(pat["subs"]):
+            for sp_, x in zip(pat["subs"], v[1]):
+                bind_const(sp_, x)
 
     def has_site(e):
         return any(id(x) in sites for x in walk(e))
 
+    subject_ids = {canon(pid)}
+
     def is_subject(e):
-        return is_local(e, pid)
+        e = peel(e)
+        return e.get("k") == "local" and canon(e["id"]) in subject_ids
 
     def pat_hit(pat):
         for alt in pat_alts(pat):
@@ -76,7 +128,7 @@ def variant_walk(crate, f, pid, variant_path, macros=("write", "writeln")):
 
     def run(e):
         if id(e) in sites:
-            out.append(sites[id(e)])
+            out.append(dict(sites[id(e)], _values=dict(values)))
             return
         k = e.get("k")
         if k in ("blockexpr", "block"):
@@ -92,6 +144,8 @@ def variant_walk(crate, f, pid, variant_path, macros=("write", "writeln")):
         if k == "let":
             if "init" in e:
                 run(e["init"])
+                if not e.get("inl_param"):
+                    bind_const(e["pat"], const_of(e["init"]))
             return
         if k in ("return",):
             if "e" in e:
@@ -105,6 +159,11 @@ def variant_walk(crate, f, pid, variant_path, macros=("write", "writeln")):
                         continue
                     if "guard" in arm:
                         raise Unknown("guard")
+                    a_ = alt
+                    while a_.get("k") in ("pref", "pderef"):
+                        a_ = a_["pat"]
+                    if a_.get("k") == "pbind":
+                        subject_ids.add(canon(a_["id"]))       # `other => ..`: another name of the subject
                     if vp:
                         for key, sp in vp[1].items():
                             b_ = sp
@@ -130,6 +189,22 @@ def variant_walk(crate, f, pid, variant_path, macros=("write", "writeln")):
             elif "else" in e:
                 run(e["else"])
             return
+        if k == "for" and has_site(e):
+            # `for x in &slice[..n]` with n a constant selected by the variant: the body once per element, in order
+            it = peel(e["iter"])
+            bnds = pat_bindings(e["pat"])
+            if it.get("k") == "index" and peel(it["e"]).get("k") == "local" and canon(peel(it["e"])["id"]) in {canon(x) for x in slices} and len(bnds) == 1:
+                rng = peel(it["i"])
+                fs = {f_["name"]: f_["e"] for f_ in rng.get("fields", [])} if rng.get("k") == "struct" else {}
+                lo = const_of(fs["start"]) if "start" in fs else ("lit", 0)
+                hi = const_of(fs["end"]) if "end" in fs else None
+                if rng.get("k") == "struct" and rng["path"].endswith(("ops::range::RangeTo", "ops::range::Range")) and lo and hi and lo[0] == "lit" and hi[0] == "lit":
+                    for i_ in range(lo[1], hi[1]):
+                        values[bnds[0][1]] = ("elem", canon(peel(it["e"])["id"]), i_)
+                        start = len(out)
+                        run(e["body"])
+                    return
+            raise Unknown("site in a loop")
         if k in ("for", "while", "loop", "closure"):
             if has_site(e):
                 raise Unknown("site in a loop / closure")
